@@ -395,9 +395,17 @@ func genRangeLevels(t *rapid.T, lo, hi *big.Int, fd, nLevels int, label string) 
 			if iv.hi.Cmp(hullHi) == 0 && rapid.Bool().Draw(t, label+"-max") {
 				hs = "max"
 			}
-			if iv.lo.Cmp(iv.hi) == 0 && ls != "min" && hs != "max" {
+			switch {
+			case iv.lo.Cmp(iv.hi) == 0 && ls != "min" && hs != "max":
 				parts = append(parts, ls)
-			} else {
+			case iv.lo.Cmp(iv.hi) == 0 && rapid.Bool().Draw(t, label+"-keyword-alone"):
+				// a single value that is the lowest / highest one allowed: the keyword on its own, or on both sides
+				kw := "min"
+				if hs == "max" {
+					kw = "max"
+				}
+				parts = append(parts, rapid.SampledFrom([]string{kw, kw + ".." + kw}).Draw(t, label+"-keyword-form"))
+			default:
 				parts = append(parts, ls+".."+hs)
 			}
 		}
